@@ -14,6 +14,7 @@ RULE = ('row-normalised log-prob matrices T(1-12) x C(2-6), blank last; classes:
         'two-level rows (ties); beam widths {1,2,3,5,8,50,5000}; default selector and non-pruning selectors (ascending and best-first symbol order); unnormalised variants for the guard. '
         'non-trivial = at least two hypotheses returned or a frame where pruning removed a finite candidate; distinct = hash of (matrix, k, selector) Alphabets with a blank character; symbols exactly on the pre-selection threshold (-10.0 +- 1 ulp); every matrix also decoded by a long-lived decoder object. LM-free decoders built with an insertion bonus; single-precision large-alphabet matrices for the guard.')
 RULE += ' Round 6: A re-used buffer overwritten in place with unnormalised scores; frames within the guard tolerance with one symbol one ulp around the pruning threshold.'
+RULE += ' Round 7: Alphabets just beyond 256 / 65536 classes with two occurring symbols of congruent index; caller-supplied normalisation tolerances.'
 ASSUMPTIONS = ['ties at a pruning boundary (k-th vs (k+1)-th candidate within 1e-9) make the beam-equality clause ambiguous for that case; the frame recorder '
                'still validates the implementation\'s own choice there',
                'the reference search re-ranks only on frames that offer at least one candidate symbol, as the statement\'s "per-frame symbol pre-selection" implies for frames with none',
